@@ -18,6 +18,8 @@ for d in sorted(glob.glob(os.path.join(here, "seeded", "S*"))):
     chk = m["checks"]
     caught = ", ".join(chk["rules"]) + " (" + ", ".join(chk["caught_by_properties"]) + ")" if chk["rules"] else "MISSED"
     st = "yes — " + chk["strengthened_after_this_seed"] if chk.get("strengthened_after_this_seed") else "no (caught as built)"
+    if m.get("superseded"):
+        st += " — SUPERSEDED: " + m["superseded"]
     rows.append((m["id"], m["property_broken"], f"{where}: {ctx}", needs, caught, st))
 out = ["| seed | breaks | where | needs, to manifest | caught by rule (checks that exit 1) | check strengthened after the seed? |", "|---|---|---|---|---|---|"]
 for r in rows:
